@@ -640,7 +640,11 @@ def run(ctx: Context):
             raise AnalysisError("the date grammar could not be extracted (see C48.5)")
         iso, mc, fn = date["iso"], date["mc"], date["fn"]
         r.site(iso, mc, "end of pattern")
-        full = date["how"] == "fullmatch" or regex_end_anchor(date["rast"]) is not None
+        how = date["how"]
+        if how == "search" and not regex_starts_anchored(date["rast"]):
+            r.violation(iso, iso.loc(mc), "the date regex %r is applied with .search() and has no start anchor: text before the "
+                        "date is ignored instead of being rejected" % date["pattern"])
+        full = how == "fullmatch" or regex_end_anchor(date["rast"]) is not None
         if not full:
             # a guard in parse_date itself (fullmatch / anchored match of the bare date) is equally good
             for c in calls_in_func(fn):
@@ -653,7 +657,7 @@ def run(ctx: Context):
                         full = True
         r.require(full, fn, iso.loc(mc), "the date regex %r is applied with .%s() and has no end anchor: "
                   "parse_date('2009-03-18T01:02:03') matches its own prefix, the appended 'T00:00:00' is ignored and the value "
-                  "is read as 01:02:03 instead of being rejected" % (date["pattern"], date["how"]))
+                  "is read as 01:02:03 instead of being rejected" % (date["pattern"], how))
 
     # =================================================================== 7
     with ctx.rule("C48.7", "R11", "every output template of abbreviate_space lies in the grammar of parse_abbreviated_size",
